@@ -71,9 +71,9 @@ Definition m_add (fx10 : bool) (p : name) (m : mtype) (es : mentries) : mentries
   end.
 
 Record fixes := mkFx { fx9 : bool; fx10 : bool; fx11 : bool; fx14 : bool; fx15 : bool; fx34 : bool; fx37 : bool; fx38 : bool;
-                       fx35 : bool; fx42 : bool }.
-Definition PINNED := mkFx false false false false false false false false false false.
-Definition FIXED := mkFx true true true true true true true true true true.
+                       fx35 : bool; fx42 : bool; fx43 : bool }.
+Definition PINNED := mkFx false false false false false false false false false false false.
+Definition FIXED := mkFx true true true true true true true true true true true.
 
 Inductive packaging := PZip | PFolder | PXml.
 Definition pk_eqb (a b : packaging) := match a, b with PZip, PZip | PFolder, PFolder | PXml, PXml => true | _, _ => false end.
@@ -262,6 +262,10 @@ Definition d_import (fx : fixes) (fs : fsys) (n : name) (b : bytes) (m : mtype) 
   | Some x => (set_tree MANIFEST (with_entries (m_add (fx10 fx) n m (entries x)) x) d1, true)
   end.
 
+(* the cached parts of a clone.  As found: none (F43: what a part class keeps beside its tree, e.g. Meta's "generator set by the
+   user", is lost).  Repaired: a wrapper of the same class and state for every part the original had fetched, tree not parsed *)
+Definition wrappers (fx : fixes) (l : list (name * option xml)) : list (name * option xml) :=
+  if fx43 fx then map (fun p => (fst p, None)) l else [].
 (* Document.clone: (original, clone) *)
 Definition d_clone (fx : fixes) (fs : fsys) (d : document) : document * document :=
   let '(c1, cl) := c_clone fx fs (cont d) in
@@ -271,8 +275,8 @@ Definition d_clone (fx : fixes) (fs : fsys) (d : document) : document * document
                          let '(dd, ox) := d_tree fx fs n (fst acc) in
                          match ox with Some x => (dd, c_set_part fx n (ser x) (snd acc)) | None => (dd, snd acc) end)
                          (map fst (xps d1)) (d1, cl) in
-    (d2, mkD cl2 [])
-  else (d1, mkD cl []).
+    (d2, mkD cl2 (wrappers fx (xps d)))
+  else (d1, mkD cl (wrappers fx (xps d))).
 
 (* the serialisation loops of Document.save *)
 Definition ser_loop (fx : fixes) (fs : fsys) (pty : bool) (ns : list name) (d : document) : document * bool :=
